@@ -32,6 +32,9 @@ type c02Core struct {
 	blocked    bool   // blocks in a channel operation instead of spinning
 	ticks      int    // tick() calls per cycle
 	setup      string // top-level statements needed before
+	// announces: the core calls entered() when it has reached the part that never terminates (the
+	// bottom of a deep recursion); an asynchronous cancel waits for that call
+	announces bool
 }
 
 var c02Cores = []c02Core{
@@ -112,6 +115,11 @@ type c02Wrapper struct {
 	// followed by further statements, alternating with core and wrapper) instead of both; the
 	// random phase draws the position freely
 	onePosition bool
+	// mayEnd: whether the construct reaches the core at all is left open by the statement (a finally
+	// block after a catch block that returned or threw): the wrapper puts a call of entered() in
+	// front of the core. A program that ends without that call has ended by itself (not running at
+	// the cancel, trivial); after that call only the interruption can end it.
+	mayEnd bool
 }
 
 // c02Holder: a host struct with a func-typed field a script assigns to
@@ -352,6 +360,15 @@ type c02Case struct {
 	sync     bool
 	k        int // sync: the k-th tick cancels
 	procs    int
+	custom   *c02Core // phase deep: a generated core instead of c02Cores[core]
+	deep     string   // phase deep: shape and depth, for the case description
+}
+
+func (cc c02Case) coreDef() c02Core {
+	if cc.custom != nil {
+		return *cc.custom
+	}
+	return c02Cores[cc.core]
 }
 
 func (cc c02Case) describe() string {
@@ -363,7 +380,7 @@ func (cc c02Case) describe() string {
 	if cc.sync {
 		mode = fmt.Sprintf("sync-k%d", cc.k)
 	}
-	return fmt.Sprintf("%s<%s>%s:%s", c02Cores[cc.core].name, strings.Join(ws, "<"), map[bool]string{true: ":trailing", false: ""}[cc.trailing], mode)
+	return fmt.Sprintf("%s<%s>%s:%s", cc.coreDef().name+cc.deep, strings.Join(ws, "<"), map[bool]string{true: ":trailing", false: ""}[cc.trailing], mode)
 }
 
 func (cc c02Case) source() string {
@@ -374,7 +391,7 @@ func (cc c02Case) source() string {
 // sources returns (prelude, main): the prelude, if any, is executed first by a
 // separate vm.Execute call on the same environment.
 func (cc c02Case) sources() (string, string) {
-	core := c02Cores[cc.core]
+	core := cc.coreDef()
 	body := core.src
 	prelude := ""
 	for i, w := range cc.wrappers {
@@ -440,23 +457,28 @@ func init() {
 		ID: "C02",
 		Plan: func(tier string) fw.Plan {
 			nRand, nCont := 400, 40
+			nDeep := len(c02DeepShapes) + len(c02DeepDescending) // every call path once
 			if tier == "thorough" {
 				nRand, nCont = 150000, 2500
+				nDeep *= 20
 			}
 			return fw.Plan{
 				Level: "exploration",
-				Rule:  "programs that never terminate by construction: a core (spinning: every loop form, for-in nested in a loop, unbounded recursion through 0/1/3/6-parameter, variadic and mutually recursive functions, tick-less loops; blocked: receive expression/statement with and without ok, send on unbuffered and full channels, range over an open channel, forwarding `out <- <- ch`, and the channel-to-channel form `dst <- src` blocked in its sending half (value ready in src; dst unbuffered or full; script-made and host-made channels), in its receiving half, and as a pipeline stage in a loop / function / goroutine; practically endless recursion (2^64 calls, depth 64) through functions whose body is exactly one `return <expr>`: 1 and 6 parameters, variadic, lambda variable, map member, zero-parameter closures, mutual recursion 0/1/6, through a host callback, with a probe at the leaves or probe-less) under 0-3 wrappers (script function of arity 0/1/4/6/variadic/spread call, anonymous/member/module call, module body, go + blocked parent, try/catch/finally bodies, either side of ??, ternary arm, call argument, deferred callee (after return / after error / top level), switch, if/else, for-in, callbacks handed to Go func types with and without an error result; host functions that invoke the callback several times (retry, each, sort-like, value+error, stored struct field) or only after Go-side work, where the host cancels the context itself between two invocations or waits there until the asynchronous cancellation has landed, so that the never-terminating invocation STARTS under a cancelled context; the target expressions of a receive statement; round 5 (c02_r5.go): callbacks of Go types that take a context.Context (first/last/only parameter, with value, error and multiple results, script function variadic, stored in a struct field and called by host or script, appended to a host slice, returned by another callback, retried with a host cancel between / a wait for the cancel) which the host invokes with context.Background(), a context of its own not derived from the run's, or nil; script functions converted by every store/append into a container with a Go func element type (+ and += of one value on host-owned, make()-made, literal and member slices, index store, index append, typed map index/member store, typed map literal, host-owned map, store through a pointer, send on a script-made typed channel, list and nested list given to []func() / [][]func() parameters) and then invoked by the script or by a host function; script functions returned in result positions of Go callback types (func with error / bool / in second / middle-of-three position, with parameter and result, the result list as one list value, slices and maps of funcs as single or one of several results, func() error as result, factory of factory, host cancels between two invocations of the returned function); a callback the host runs on a goroutine of its own while the script is blocked), last or followed by further statements. phase contended = a script consuming a buffered channel (range / receive statement / receive with ok, at top level or in a function) while host goroutines take values from the same channel and a host producer feeds it; when the feed has stopped and the buffer is empty the context is cancelled (150 trials per case; only the last values fed matter, so feeds are short; channel capacity, number of competing consumers and feed length from the PRNG). Cancellation instant: synchronous (the k-th probe cancels, k swept) or asynchronous (a harness goroutine cancels after 0-3 ms at GOMAXPROCS 1/2/16). phase enum = every core x every single wrapper x both positions (complete), except that each round-5 wrapper is run with every core in ONE of the two positions (alternating with core and wrapper; the random phase draws the position freely); phase random = PRNG wrapper chains of length 0-3. Non-trivial = the program was running (>= 1 probe event or a blocked core) when the cancel landed; distinct = (program, mode, k).",
+				Rule:  "programs that never terminate by construction: a core (spinning: every loop form, for-in nested in a loop, unbounded recursion through 0/1/3/6-parameter, variadic and mutually recursive functions, tick-less loops; blocked: receive expression/statement with and without ok, send on unbuffered and full channels, range over an open channel, forwarding `out <- <- ch`, and the channel-to-channel form `dst <- src` blocked in its sending half (value ready in src; dst unbuffered or full; script-made and host-made channels), in its receiving half, and as a pipeline stage in a loop / function / goroutine; practically endless recursion (2^64 calls, depth 64) through functions whose body is exactly one `return <expr>`: 1 and 6 parameters, variadic, lambda variable, map member, zero-parameter closures, mutual recursion 0/1/6, through a host callback, with a probe at the leaves or probe-less) under 0-3 wrappers (script function of arity 0/1/4/6/variadic/spread call, anonymous/member/module call, module body, go + blocked parent, try/catch/finally bodies, either side of ??, ternary arm, call argument, deferred callee (after return / after error / top level), switch, if/else, for-in, callbacks handed to Go func types with and without an error result; host functions that invoke the callback several times (retry, each, sort-like, value+error, stored struct field) or only after Go-side work, where the host cancels the context itself between two invocations or waits there until the asynchronous cancellation has landed, so that the never-terminating invocation STARTS under a cancelled context; the target expressions of a receive statement; round 5 (c02_r5.go): callbacks of Go types that take a context.Context (first/last/only parameter, with value, error and multiple results, script function variadic, stored in a struct field and called by host or script, appended to a host slice, returned by another callback, retried with a host cancel between / a wait for the cancel) which the host invokes with context.Background(), a context of its own not derived from the run's, or nil; script functions converted by every store/append into a container with a Go func element type (+ and += of one value on host-owned, make()-made, literal and member slices, index store, index append, typed map index/member store, typed map literal, host-owned map, store through a pointer, send on a script-made typed channel, list and nested list given to []func() / [][]func() parameters) and then invoked by the script or by a host function; script functions returned in result positions of Go callback types (func with error / bool / in second / middle-of-three position, with parameter and result, the result list as one list value, slices and maps of funcs as single or one of several results, func() error as result, factory of factory, host cancels between two invocations of the returned function); a callback the host runs on a goroutine of its own while the script is blocked; round 6 (c02_r6.go): try statements whose catch block is left by return / throw / rethrow / a runtime error / break / continue and whose finally block holds the core, at top level, nested in another try, in loops, in script functions of 0/1/6 parameters whose last statement it is, and in a callback - each calls entered() in front of the core, and a run that ends without that call never reached the core (whether such a finally block runs is not this property's business) and is trivial), last or followed by further statements. phase contended = a script consuming a buffered channel (range / receive statement / receive with ok, at top level or in a function) while host goroutines take values from the same channel and a host producer feeds it; when the feed has stopped and the buffer is empty the context is cancelled (150 trials per case; only the last values fed matter, so feeds are short; channel capacity, number of competing consumers and feed length from the PRNG). Cancellation instant: synchronous (the k-th probe cancels, k swept) or asynchronous (a harness goroutine cancels after 0-3 ms at GOMAXPROCS 1/2/16). phase deep = the cancellation lands underneath 20000-100000 pending script calls (depth from the PRNG, capped at 60000 for the call paths that need the most Go stack): a recursion that counts down through 1/3/6-parameter, variadic, lambda-variable, map-member, closure, mutually recursive functions, through a host callback, in operand / statement / host-call-argument position, with a defer or a try statement at every level, or along a linked structure, and then spins (with and without probe, in a callee) or blocks (receive, send) at its bottom, which it announces by entered(); and the unbounded recursions of the main table cancelled synchronously by their D-th probe; under 0-1 wrappers; every call path once per round of cases. phase enum = every core x every single wrapper x both positions (complete), except that each round-5 wrapper is run with every core in ONE of the two positions (alternating with core and wrapper; the random phase draws the position freely); phase random = PRNG wrapper chains of length 0-3. Non-trivial = the program was running (>= 1 probe event or a blocked core) when the cancel landed; distinct = (program, mode, k).",
 				Assumptions: []string{"the error must carry the text \"execution interrupted\" (vm.ErrInterrupt or a *vm.Error wrapping it)",
 					"after cancel() returned, at most 2*(ticks per cycle)+goroutines+2 further probe events are tolerated (the expression in progress may finish)",
 					"a call that has not returned is judged from two goroutine-state samples and the process CPU time consumed since the cancel; a wall-clock expiry alone is inconclusive",
 					"time inside one single host Go call is outside the bound (the callback wrappers are NOT host calls: the script function they invoke is script code; a host function that waits for the cancellation between two invocations of its callback returns from that wait when the cancellation lands, the invocation that follows is script code again)",
 					"a context.Context that the host passes to a callback as an argument is a plain value for the script function; the statement names only the context given to ExecuteContext/RunContext, so that one has to stop the callback whatever context (background, the host's own, nil) arrives as argument; the harness never cancels the contexts it passes as arguments",
 					"a host goroutine that runs a callback recovers the panic by which the adapter reports the callback's interruption; only that the callback stops (probe events after the cancel) and that the call returns the error are judged",
+					"a program that may end by itself before it reaches its core (round-6 finally wrappers) or that needs time to get there (phase deep) calls the host function entered() at that point; an asynchronous cancel is scheduled after that call (or after the program has ended, or after a grace period - which of the three is irrelevant for the verdict); an outcome other than \"execution interrupted\" is a violation only if entered() was called, because only then the program could not have ended by itself",
+					"phase deep: a call that has not returned 4 s after the cancel is waited for until the process has consumed 3 s of CPU since the cancel (the unchanged tree needs 0.02-0.3 s to unwind 100000 pending calls; the CPU budget instead of more wall clock keeps the verdict independent of how busy the machine is) and is then classified like any other call that does not return: goroutine states + CPU time, signature not-stopped:<kind>:...:deep-recursion",
 					"excluded for now (constants c02PendingFix_*, reported for repair): an interruption while the ok target of `v, target = <- ch` is evaluated; a script function stored in a Go func-typed slot by an earlier run and called by a later one"},
 				Phases: []fw.Phase{
 					{Name: "enum", Cases: len(fixed) + len(enum), Chunk: 40, Exhaust: true, TimeoutS: 900, Jobs: 8},
 					{Name: "random", Cases: nRand, Chunk: 40, TimeoutS: 900, Jobs: 8},
 					{Name: "contended", Cases: nCont, Chunk: 5, TimeoutS: 900, Jobs: 4},
+					{Name: "deep", Cases: nDeep, Chunk: 2, TimeoutS: 900, Jobs: 4, MemMB: 3072},
 				},
 			}
 		},
@@ -466,7 +488,9 @@ func init() {
 				c02Contended(c)
 				return
 			}
-			if c.Phase == "enum" {
+			if c.Phase == "deep" {
+				cc = c02DeepCase(c)
+			} else if c.Phase == "enum" {
 				if c.Index < len(fixed) {
 					cc = fixed[c.Index]
 				} else {
@@ -483,7 +507,7 @@ func init() {
 				cc.sync = c.Rng.Intn(3) != 0
 				cc.k = 1 + c.Rng.Intn(8)
 			}
-			core := c02Cores[cc.core]
+			core := cc.coreDef()
 			if core.blocked || core.ticks == 0 {
 				cc.sync = false
 			}
@@ -515,7 +539,7 @@ func procCPU() float64 {
 func c02Run(c *wk.Case, cc c02Case, delay time.Duration) {
 	prelude, src := cc.sources()
 	desc := cc.describe()
-	core := c02Cores[cc.core]
+	core := cc.coreDef()
 	input := map[string]interface{}{"program": src, "library_loaded_by_an_earlier_execute": prelude, "case": desc}
 	c.Begin(input)
 	old := runtime.GOMAXPROCS(cc.procs)
@@ -543,6 +567,20 @@ func c02Run(c *wk.Case, cc c02Case, delay time.Duration) {
 	e.Define("tickT", func() bool { tick(); return true })
 	e.Define("tickI", func() int64 { tick(); return 0 })
 	e.Define("hcancel", func() { doCancel() })
+	// entered(): the program announces that it has reached its never-terminating part (wrappers
+	// with mayEnd, cores with announces)
+	guarded, waits := core.announces, false
+	for _, w := range cc.wrappers {
+		guarded = guarded || c02Wrappers[w].mayEnd
+		waits = waits || c02Wrappers[w].waitsForCancel
+	}
+	var enteredFlag int32
+	enteredCh := make(chan struct{})
+	var enteredOnce sync.Once
+	e.Define("entered", func() {
+		atomic.StoreInt32(&enteredFlag, 1)
+		enteredOnce.Do(func() { close(enteredCh) })
+	})
 	e.Define("ident", func(a interface{}) interface{} { return a })
 	e.Define("apply", func(f func()) { f() })
 	e.Define("applyE", func(f func() error) error { return f() })
@@ -647,6 +685,20 @@ func c02Run(c *wk.Case, cc c02Case, delay time.Duration) {
 		close(done)
 	}()
 	if !cc.sync {
+		if guarded && !waits {
+			// let the program reach the part that never terminates (or end by itself) first. The
+			// expiry only schedules the cancel: a program cancelled earlier than hoped is still a
+			// running program, and no verdict depends on which of the three happened
+			enterWait := 100 * time.Millisecond
+			if core.announces {
+				enterWait = 30 * time.Second
+			}
+			select {
+			case <-done:
+			case <-enteredCh:
+			case <-time.After(enterWait):
+			}
+		}
 		time.Sleep(delay)
 		doCancel()
 	}
@@ -674,13 +726,30 @@ func c02Run(c *wk.Case, cc c02Case, delay time.Duration) {
 		doCancel()
 	}
 	cpu0 := procCPU()
+	cancelledAt := time.Now() // for the text of a report only
 	returned := false
 	select {
 	case <-done:
 		returned = true
 	case <-time.After(4 * time.Second):
 	}
+	if !returned && cc.deep != "" {
+		// phase deep runs four workers with large stacks side by side: on a busy machine 4 s of
+		// wall clock can be a fraction of a second of CPU. Keep waiting until this process has
+		// consumed 3 s of CPU since the cancel (the unchanged tree unwinds 100000 pending calls in
+		// 0.02-0.3 s) - or, as a backstop that yields "inconclusive" below, for a minute.
+		for i := 0; i < 560 && !returned && procCPU()-cpu0 < 3.0; i++ {
+			select {
+			case <-done:
+				returned = true
+			case <-time.After(100 * time.Millisecond):
+			}
+		}
+	}
 	nontrivial := atomic.LoadInt64(&ticks) > 0 || core.blocked || core.ticks == 0
+	if guarded && atomic.LoadInt32(&enteredFlag) == 0 {
+		nontrivial = false
+	}
 	c.Eval(desc, nontrivial)
 	c.Events(int(atomic.LoadInt64(&ticks)))
 	c.Tag("core:"+core.name, "mode:"+map[bool]string{true: "sync", false: "async"}[cc.sync])
@@ -693,7 +762,7 @@ func c02Run(c *wk.Case, cc c02Case, delay time.Duration) {
 		// the construct that matters for a swallowed interrupt is the outermost one that can swallow
 		for _, w := range cc.wrappers {
 			n := c02Wrappers[w].name
-			if strings.HasPrefix(n, "coalesce") || strings.HasPrefix(n, "callback") || strings.HasPrefix(n, "chan-recv") {
+			if strings.HasPrefix(n, "coalesce") || strings.HasPrefix(n, "callback") || strings.HasPrefix(n, "chan-recv") || strings.HasPrefix(n, "finally-after-") {
 				wsig = n
 			}
 		}
@@ -703,13 +772,22 @@ func c02Run(c *wk.Case, cc c02Case, delay time.Duration) {
 		kind = "blocked"
 	}
 	if !returned {
+		if cc.deep != "" {
+			// the interruption has to travel out of tens of thousands of pending calls: one signature
+			// for "that takes for ever", whatever is wrapped around
+			wsig = "deep-recursion"
+		}
 		// classify from goroutine states (two samples) and CPU time since the cancel
+		waited := "4 s"
+		if cc.deep != "" {
+			waited = fmt.Sprintf("%.0f s", time.Since(cancelledAt).Seconds())
+		}
 		s1 := c02Stacks()
 		time.Sleep(300 * time.Millisecond)
 		s2 := c02Stacks()
 		burn := procCPU() - cpu0
 		st1, st2 := c02Classify(s1), c02Classify(s2)
-		detail := fmt.Sprintf("the call had not returned 4 s after cancel() returned; interpreter goroutine state: %s / %s; process CPU since cancel: %.2f s; probe events after cancel: %d", st1, st2, burn, atomic.LoadInt64(&after))
+		detail := fmt.Sprintf("the call had not returned "+waited+" after cancel() returned; interpreter goroutine state: %s / %s; process CPU since cancel: %.2f s; probe events after cancel: %d", st1, st2, burn, atomic.LoadInt64(&after))
 		switch {
 		case st1 == "host-call" && st2 == "host-call":
 			c.Excluded("parked-inside-one-host-call")
@@ -734,6 +812,14 @@ func c02Run(c *wk.Case, cc c02Case, delay time.Duration) {
 		return
 	}
 	errText := ank.ErrText(o.Err)
+	if guarded && atomic.LoadInt32(&enteredFlag) == 0 && errText != "execution interrupted" {
+		// the program never reached its never-terminating part: it ended by itself (the statement
+		// leaves open whether, say, a finally block runs after a catch block that returned), at an
+		// instant unrelated to the cancel. Had it called entered(), only the interruption could
+		// have ended it, and any other outcome is judged below.
+		c.Tag("not-running-at-cancel", "ended-before-core")
+		return
+	}
 	if errText != "execution interrupted" {
 		c.Violation("swallowed:"+kind+":"+wsig, fmt.Sprintf("after the cancel the call returned (%s, error %q) instead of the error \"execution interrupted\"", ank.Render(o.Val), errText), input)
 		return
